@@ -1,4 +1,4 @@
-(* C09 -- unrolling equals iterated execution.  Statements only; proofs in Proofs/UnrollProofs.v.
+(* C09 -- unrolling equals iterated execution.  Statements only; proofs in Proofs/Unroll*.v, Proofs/FlopLink.v.
 
    Model: Model/Unroll.v `unroll` / `sequential_unroll` (API-level mirrors of tx.unroll / tx.sequential_unroll),
    `unroll_closed` / `unroll_iomap` (closed form of the result of unroll), `run` (iterated evalc of the sequential machine)
@@ -8,9 +8,9 @@
    the closed forms (graph and io-map equality whenever the model returns), so `C09_unroll_partial` and
    `C09_sequential_unroll_partial` are about the models themselves.  Inside the guards the model returns (`C09_total`) and its
    result is lint-clean, so `C09_unroll` is the unroll clause of the property about the API-level model with nothing left to the
-   per-case oracle.  Not proved, decided per case by Run_C09.agree/holds: for sequential circuits
-   the step from the stripped circuit to the flop circuit itself (`C09_stripped_is_flop_run_full`; stages S1, S2a proved:
-   `C09_flop_run_is_run`, `C09_flop_run_unique`, `C09_remove_nodes_extend`). *)
+   per-case oracle.  For sequential circuits `C09_sequential_unroll_full` is the sequential clause about the model AND the flop circuit
+   itself (cycle-accurate semantics `flop_run`; stages S1 `C09_flop_run_is_run` / `C09_flop_run_unique`, S2 `C09_stripped_is_flop_run`,
+   S3 io map / initial values / output marks; proofs in Proofs/FlopLink.v). *)
 From stdpp Require Import strings gmap sets fin_sets.
 From CG Require Import Base.Oracle Model.Unroll Model.Lint Proofs.UnrollProofs Proofs.UnrollLink Proofs.UnrollTotal Proofs.UnrollModelTotal Proofs.FlopSemantics Proofs.RemoveNodes Proofs.FlopLink.
 Open Scope string_scope.
